@@ -57,11 +57,21 @@ func matchKnown(known []knownEntry, prop string, v *chain.Violation) *knownEntry
 		if !v.HasProp(k.Property) {
 			continue
 		}
-		if strings.HasPrefix(v.Shape, k.Shape) && checkMatches(k.Check, v.Check) {
+		if shapeMatches(k.Shape, v.Shape) && checkMatches(k.Check, v.Check) {
 			return k
 		}
 	}
 	return nil
+}
+
+// shapeMatches: a known entry may list several shape prefixes separated by '|' (the places one defect shows at).
+func shapeMatches(list, shape string) bool {
+	for _, p := range strings.Split(list, "|") {
+		if p != "" && strings.HasPrefix(shape, p) {
+			return true
+		}
+	}
+	return false
 }
 
 // checkMatches: a known entry may list several check ids separated by '|' (symptoms of one defect).
@@ -377,7 +387,7 @@ func replayWitnesses(prop string, known []knownEntry, agg *aggregate) ([]string,
 		hit := false
 		var other *chain.Violation
 		for _, v := range res.Violations {
-			if checkMatches(k.Check, v.Check) && (k.Shape == "" || strings.HasPrefix(v.Shape, k.Shape)) {
+			if checkMatches(k.Check, v.Check) && (k.Shape == "" || shapeMatches(k.Shape, v.Shape)) {
 				hit = true
 			} else if v.HasProp(prop) && other == nil {
 				other = v
